@@ -64,6 +64,10 @@ def cases(tier, rng, run):
                     first = "P|x|S|FloatTensor,0,a|T,2:float32,3"
                     out.append(Case(f"CALL\tfunc:pos\t-\t\t{first}\t{p}", f"param{n}"))
                     out.append(Case(f"CALL\tfunc:kw\t-\t\t{first}\tR|T|{';'.join(specs)}|U:{';'.join(vals)}", f"ret{n}"))
+                    if fault_kind == "lit" and n <= 3:
+                        # the tuple hint is the ONLY hinted thing of the function (plain types may come first inside it)
+                        out.append(Case(f"CALL\tfunc:pos\t-\t\t{p}", f"soleparam{n}"))
+                        out.append(Case(f"CALL\tfunc:kw\t-\t\tP|k|S|-|X\tR|T|{';'.join(specs)}|U:{';'.join(vals)}", f"soleret{n}"))
                     if fault_kind == "lit" and rng.random() < 0.3:
                         out.append(Case(f"CALL\tnt:pos\t-\t\t{first}\t{p}", f"nt{n}"))
                         out.append(Case(f"CALL\tdc:kw\t-\t\t{first}\t{p}", f"dc{n}"))
